@@ -51,6 +51,11 @@ def run(ctx: core.Ctx) -> int:
     for e in sub.errors:
         ctx.error(e)
     ctx.floor("HOLD", nh, 5, "per-reading holds (1 Python + 4 C++ tick overloads with readings)")
+    # the configured maximum the runtime reads is the one the user configured: the adapter's set_params changes exactly the named field (C17's rule)
+    from . import c17 as _c17sp
+    _pm = ctx.parse("py/formak/python.py")
+    ctx.rule("SET-PARAMS", "set_params: each key by setattr / a per-key Config rebuild from the current config / raise (shared with C17)")
+    _c17sp.set_params_rule(ctx, core.find_class(_pm, "SklearnEKFAdapter"), _pm)
     return core.finish(ctx, explanation="E5: IR-level symbolic execution of the step functions under direction scenarios, "
                                         "sign analysis + provenance + effects", **META)
 
